@@ -95,18 +95,21 @@ func VerifBroadcastOrder() {
 }
 
 // A subscriber that never reads (more values outstanding than its buffer holds) leaves while a Broadcast may be in
-// progress; the other subscriber keeps reading. Broadcast, a later Subscribe and Close must all return, the staying
+// progress; the two other subscribers keep reading. Broadcast, a later Subscribe and Close must all return, each staying
 // subscriber gets every value exactly once, in order.
 //
-//verif:harness prop=C11 name=broadcast_departure threads=6 sched=delay preempt=2 t_preempt=3 maxpaths=400000 unwind=14 witness=lenient
+//verif:harness prop=C11 name=broadcast_departure threads=8 sched=delay preempt=2 t_preempt=3 maxpaths=400000 unwind=14 witness=lenient
 func VerifBroadcastDeparture() {
 	b := New[vMsg]()
 	stalled := make(chan vMsg) // nobody ever receives from it
 	c2 := &vConsumer{ch: make(chan vMsg)}
+	c2b := &vConsumer{ch: make(chan vMsg)} // a second staying subscriber, behind the first in the fan-out
 	ctx1, leave := context.WithCancel(context.Background())
 	b.Subscribe(ctx1, stalled)
 	b.Subscribe(context.Background(), c2.ch)
+	b.Subscribe(context.Background(), c2b.ch)
 	go vConsume(c2)
+	go vConsume(c2b)
 	n := 5 // buffer (2, scaled from 10) + 1 held by the forwarder + 2 more
 	if !zzverif.Symbolic() {
 		n += 8 // native replay runs with the real buffer of 10
@@ -123,9 +126,11 @@ func VerifBroadcastDeparture() {
 	leave()
 	<-done
 	zzverif.WaitQuiescent()
-	zzverif.Assert(len(c2.got) == n, "staying_subscriber_gets_every_value_once")
-	for i := 0; i < len(c2.got); i++ {
-		zzverif.Assert(c2.got[i].id == i+1, "staying_subscriber_order")
+	for _, c := range []*vConsumer{c2, c2b} {
+		zzverif.Assert(len(c.got) == n, "staying_subscriber_gets_every_value_once")
+		for i := 0; i < len(c.got); i++ {
+			zzverif.Assert(c.got[i].id == i+1, "staying_subscriber_order")
+		}
 	}
 	c3 := &vConsumer{ch: make(chan vMsg)}
 	b.Subscribe(context.Background(), c3.ch)
